@@ -648,23 +648,34 @@ pub fn run_check(prop: &str, tier: Tier, seed: u64, profiles: &[&str]) -> i32 {
                 }
             }
         }
-        for (kind, unit, sub) in res.deaths.iter() {
+        for (di, (kind, unit, sub)) in res.deaths.iter().enumerate() {
             deaths_total += 1;
             let (bi, p1) = &job.units[*unit as usize];
             let b = &job.baselines[*bi];
+            let max_request = res.death_max_request.get(di).copied().unwrap_or(0);
+            let over_bound = max_request > mem_bound(b.bytes.len() as u64);
             let case = json!({"engine": "e3", "baseline": b.name, "unit": unit, "sub": sub, "profile": profile,
                 "first_patch": p1.as_ref().map(|p| p.sites().into_iter().map(|(pos, b)| json!([pos, hex(b)])).collect::<Vec<_>>()), "note": "worker process died on this case; replay with `mp4mc e3case`"});
             // timeout -> C07; refused allocation (process aborts) -> C08 and C06; any other death (abort, stack overflow) -> C06
             let is_timeout = kind == "timeout";
             let is_alloc = kind.starts_with("allocation_refused");
+            // a request beyond the linear bound made before the worker died (however it died) is C08's
             let mine = match prop {
                 "C07" => is_timeout,
-                "C08" => is_alloc,
+                "C08" => is_alloc || over_bound,
                 _ => !is_timeout,
             };
             if mine {
-                let clause = if is_timeout { "case_exceeded_wall_clock_watchdog" } else if is_alloc { "allocation_request_refused_process_aborted" } else { "worker_process_died" };
-                rep.report(Violation::new(prop, clause, case).tag(kind.split(':').next().unwrap_or(kind)).obs(json!(kind)));
+                let clause = if prop == "C08" && over_bound && !is_alloc {
+                    "allocation_request_exceeds_linear_bound_before_worker_died"
+                } else if is_timeout {
+                    "case_exceeded_wall_clock_watchdog"
+                } else if is_alloc {
+                    "allocation_request_refused_process_aborted"
+                } else {
+                    "worker_process_died"
+                };
+                rep.report(Violation::new(prop, clause, case).tag(kind.split(':').next().unwrap_or(kind)).obs(json!({"death": kind, "largest_request_of_the_case": max_request})).exp(json!({"at_most": mem_bound(b.bytes.len() as u64)})));
             }
         }
         if res.capped {
